@@ -1,22 +1,16 @@
-(* C14 phase 2: agreement of the two reader models on modules without blackbox instances (part C1) *)
+(* C14 phase 2: agreement of the two reader models on the documented subset (part C1) *)
 From stdpp Require Import strings gmap sets pretty.
 From CG Require Import Model.FastVerilog Proofs.FastVerilogProofs Gen.Gen_fastv.
-From CG Require Import Proofs.FvA0 Proofs.FvA1 Proofs.FvA2 Proofs.FvA3 Proofs.FvA4 Proofs.FvA5 Proofs.FvA6 Proofs.FvA7 Proofs.FvA8 Proofs.FvA9 Proofs.FvA10 Proofs.FvB1 Proofs.FvB2 Proofs.FvB3 Proofs.FvB4 Proofs.FvB5.
+From CG Require Import Proofs.FvA0 Proofs.FvA1 Proofs.FvA2 Proofs.FvP1 Proofs.FvE1 Proofs.FvE2 Proofs.FvE3 Proofs.FvE4 Proofs.FvA3 Proofs.FvE5 Proofs.FvE6 Proofs.FvE7 Proofs.FvA4 Proofs.FvA5 Proofs.FvA6 Proofs.FvA7 Proofs.FvA8 Proofs.FvA9 Proofs.FvA10 Proofs.FvB1 Proofs.FvB2 Proofs.FvB3 Proofs.FvB4 Proofs.FvB5.
 Open Scope string_scope.
 
-Lemma fanout_empty_iff g t : fanout g t = ∅ ↔ ∀ m i, g !! m = Some i → t ∉ n_fi i.
-Proof.
-  split.
-  - intros H m i Hi Hin. assert (m ∈ fanout g t) by (apply elem_of_fanout; eauto). set_solver.
-  - intros H. apply set_eq. intros x. rewrite elem_of_fanout. split; [|set_solver]. intros (i & Hi & Hin). by destruct (H x i Hi).
-Qed.
 
 (* the graph both readers arrive at, as a function of the names of the constant nodes *)
-Definition finT (t0 t1 : string) (a : ast) (m : string) : option ninfo :=
-  let U := a_items a ≫= it_uses t0 t1 in
+Definition finT (t0 t1 : string) (bbs : list bbdef) (a : ast) (m : string) : option ninfo :=
+  let U := a_items a ≫= uses t0 t1 bbs in
   if decide (m = t0) then (if decide (t0 ∈ U) then Some (mk_node C0 false ∅) else None) else
   if decide (m = t1) then (if decide (t1 ∈ U) then Some (mk_node C1 false ∅) else None) else
-  match sG (sF t0 t1 a) !! m with
+  match sG (sF t0 t1 bbs a) !! m with
   | Some (t, fis) => Some (mk_node t (bool_decide (m ∈ decl_outputs a)) (list_to_set fis))
   | None => if decide (m ∈ decl_inputs a) then Some (mk_node Input (bool_decide (m ∈ decl_outputs a)) ∅) else None
   end.
@@ -24,28 +18,55 @@ Definition finT (t0 t1 : string) (a : ast) (m : string) : option ninfo :=
 Section fin.
   Variables (a : ast) (bbs : list bbdef).
   Hypothesis Hsub : in_subset a bbs = true.
-  Hypothesis Hni : no_inst a = true.
   Let HF := in_subset_facts a bbs Hsub.
   Variables (t0 t1 : string).
   Hypothesis Hfr : t0 ∉ idents a ∧ t1 ∉ idents a.
   Hypothesis Hne : t0 ≠ t1.
-  Let SS := sF t0 t1 a.
-  Let U := a_items a ≫= it_uses t0 t1.
+  Let SS := sF t0 t1 bbs a.
+  Let U := a_items a ≫= uses t0 t1 bbs.
+  Notation views := (views t0 t1 bbs).
+
+  Lemma uses_entry it u : u ∈ uses t0 t1 bbs it → ∃ o t fis, (o, (t, fis)) ∈ views it ∧ u ∈ fis.
+  Proof.
+    destruct it as [ns|ns|ns|t' inst ops|l r|bb inst conns].
+    1-3: (simpl; intros H; by apply elem_of_nil in H).
+    - cbn [FvA3.uses FvA3.views]. destruct (FvA3.gate_view t0 t1 (IGate t' inst ops)) as [[o [t fis]]|]; [|intros H; by apply elem_of_nil in H].
+      intros Hu. exists o, t, fis. split; [by left|done].
+    - cbn [FvA3.uses FvA3.views]. destruct (FvA3.gate_view t0 t1 (IAssign l r)) as [[o [t fis]]|]; [|intros H; by apply elem_of_nil in H].
+      intros Hu. exists o, t, fis. split; [by left|done].
+    - cbn [FvA3.uses FvA3.views].
+      destruct (find_bb_first bbs bb) as [d|]; [|intros H; by apply elem_of_nil in H]. intros ([p n] & -> & [Hpi Hin]%elem_of_list_filter)%elem_of_list_fmap. cbn [fst snd] in *.
+      exists (pin inst p), BbIn. eexists. split.
+      + unfold FvA3.inst_views. apply elem_of_app. left. apply elem_of_list_fmap. exists (p, BbIn). split; [done|]. apply pin_list_elem. auto.
+      + cbn [fst]. apply elem_of_list_fmap. exists (p, n). split; [done|]. by apply elem_of_list_filter.
+  Qed.
+  Lemma entry_uses it o t fis u : (o, (t, fis)) ∈ views it → u ∈ fis → dotted u = false → u ∈ uses t0 t1 bbs it.
+  Proof.
+    destruct it as [ns|ns|ns|t' inst ops|l r|bb inst conns].
+    1-3: (simpl; intros H; by apply elem_of_nil in H).
+    - cbn [FvA3.uses FvA3.views]. destruct (FvA3.gate_view t0 t1 (IGate t' inst ops)) as [[o' [t'' fis']]|]; [|intros H; by apply elem_of_nil in H].
+      intros [= -> -> ->]%elem_of_list_singleton. done.
+    - cbn [FvA3.uses FvA3.views]. destruct (FvA3.gate_view t0 t1 (IAssign l r)) as [[o' [t'' fis']]|]; [|intros H; by apply elem_of_nil in H].
+      intros [= -> -> ->]%elem_of_list_singleton. done.
+    - cbn [FvA3.uses FvA3.views]. destruct (find_bb_first bbs bb) as [d|]; [|intros H; by apply elem_of_nil in H]. unfold FvA3.inst_views. intros [Hv|Hv]%elem_of_app Hu Hd.
+      + apply elem_of_list_fmap in Hv as ([p t''] & [= -> -> ->] & _). cbn [fst] in Hu.
+        apply elem_of_list_fmap in Hu as ([p' n] & -> & [[_ Hpi] Hin]%elem_of_list_filter). apply elem_of_list_fmap. exists (p', n). split; [done|]. by apply elem_of_list_filter.
+      + apply elem_of_list_fmap in Hv as ([p n] & [= -> -> ->] & _). apply elem_of_list_singleton in Hu as ->. by rewrite pin_dotted in Hd.
+  Qed.
 
   (* a graph whose nodes carry exactly the fan-ins of the state *)
   Definition carries (g : circuit) : Prop :=
     (∀ o t fis, sG SS !! o = Some (t, fis) → ∃ i, g !! o = Some i ∧ n_fi i = list_to_set fis) ∧
     (∀ m i, g !! m = Some i → n_fi i = ∅ ∨ ∃ t fis, sG SS !! m = Some (t, fis) ∧ n_fi i = list_to_set fis).
-  Lemma used_iff g t : carries g → (fanout g t = ∅ ↔ t ∉ U).
+  Lemma used_iff g t : dotted t = false → carries g → (fanout g t = ∅ ↔ t ∉ U).
   Proof.
-    intros [H1 H2]. rewrite fanout_empty_iff. split.
-    - intros H Hu. apply elem_of_list_bind in Hu as (it & Hu & Hit). unfold it_uses in Hu.
-      destruct (gate_view t0 t1 it) as [[o [ty fis]]|] eqn:Ev; [|by apply elem_of_nil in Hu].
-      pose proof (proj2 (G_iff a bbs Hsub Hni t0 t1 o (ty, fis)) (ex_intro _ it (conj Hit Ev))) as HG.
+    intros Hdt [H1 H2]. rewrite fanout_empty_iff. split.
+    - intros H Hu. apply elem_of_list_bind in Hu as (it & Hu & Hit). destruct (uses_entry it t Hu) as (o & ty & fis & Hv & Hin).
+      pose proof (proj2 (G_iff a bbs Hsub t0 t1 Hfr o (ty, fis)) (ex_intro _ it (conj Hit Hv))) as HG.
       destruct (H1 o ty fis HG) as (i & Hi & Hfi). apply (H o i Hi). rewrite Hfi. by apply elem_of_list_to_set.
     - intros Hu m i Hi Hin. destruct (H2 m i Hi) as [He|(ty & fis & HG & Hfi)]; [set_solver|].
-      apply Hu. apply (G_iff a bbs Hsub Hni) in HG as (it & Hit & Hv). apply elem_of_list_bind. exists it. split; [|done].
-      unfold it_uses. rewrite Hv. rewrite Hfi in Hin. by apply elem_of_list_to_set in Hin.
+      apply Hu. apply (G_iff a bbs Hsub t0 t1 Hfr) in HG as (it & Hit & Hv). apply elem_of_list_bind. exists it. split; [|done].
+      rewrite Hfi in Hin. apply elem_of_list_to_set in Hin. by eapply entry_uses.
   Qed.
   Lemma outs_not_tie o : o ∈ decl_outputs a → o ≠ t0 ∧ o ≠ t1.
   Proof. intros Ho%decl_outputs_idents. destruct Hfr. split; intros ->; done. Qed.
